@@ -1397,8 +1397,17 @@ func doReplay(path string) {
 	os.Exit(0)
 }
 
+// quiet replaces martian's default logger, whose every call (even a suppressed Debugf) takes one global mutex.
+type quiet struct{}
+
+func (quiet) Infof(string, ...interface{})  {}
+func (quiet) Debugf(string, ...interface{}) {}
+func (quiet) Errorf(string, ...interface{}) {}
+
+var stopProf = func() {}
+
 func main() {
-	mlog.SetLevel(mlog.Silent)
+	mlog.SetLogger(quiet{})
 	if p := os.Getenv("VERIF_REPLAY"); p != "" {
 		doReplay(p)
 	}
@@ -1464,5 +1473,6 @@ func main() {
 		"leaf behaviour (header append on X-Trace/X-Cond, Content-Length and Host special cases, url.Modifier, status.Modifier) is taken as given; the property under test is the composition",
 		"rejection cases are limited to unknown names, scope strings outside {request,response}, scopes a node type does not implement and syntactically invalid JSON; well-formed JSON of the wrong type is not examined",
 	}
+	stopProf()
 	rep.Finish()
 }
